@@ -98,6 +98,16 @@ func ParseDeviceCodeClientSecret(wwwAuthenticate string) string {
 func parseQuotedParam(header, param string) string {
 	key := param + `="`
 	idx := strings.Index(header, key)
+	// A match that continues a longer parameter name (client_id inside
+	// device_code_client_id) is not this parameter; keep looking.
+	for idx > 0 && header[idx-1] != ' ' && header[idx-1] != ',' {
+		next := strings.Index(header[idx+1:], key)
+		if next == -1 {
+			idx = -1
+			break
+		}
+		idx += 1 + next
+	}
 	if idx == -1 {
 		return ""
 	}
